@@ -197,6 +197,8 @@ func driveConvert(s *shardSet, rng *rand.Rand, thorough bool) ([]string, map[str
 	}
 	driveBigConvert(s, rng, thorough)
 	driveConvertBig(s, rng, thorough)
+	driveConvertSameArray(s, rng, thorough)
+	driveConvertReusedDst(s, rng, thorough)
 	// the same kind of work from several goroutines at once, on buffers that share nothing: a conversion may not
 	// depend on what other goroutines convert (scratch buffers, tables, pools shared between calls)
 	var wg sync.WaitGroup
@@ -255,6 +257,35 @@ func drivePanics(s *shardSet, rng *rand.Rand, thorough bool) ([]string, map[stri
 					w.Drop(src)
 				}
 			}
+		}
+	}
+	// different channel counts whose TOTAL sample counts agree (2ch x 6 into 3ch x 4, 4ch x 1 into 1ch x 4, ...)
+	for fi, f := range ConvFns {
+		w := s.Next()
+		w.Reset()
+		sty, dty := f.Src[fi%len(f.Src)], f.Dst[(fi*2)%len(f.Dst)]
+		for _, sh := range [][4]int{{2, 6, 3, 4}, {3, 4, 2, 6}, {4, 1, 1, 4}, {1, 4, 4, 1}, {2, 2, 4, 1}, {1, 6, 3, 2}} {
+			src := w.spreadSource(sty, sh[0], sh[1])
+			dst := w.filledRoot(dty, sh[2], sh[3])
+			w.Convert(f.Name, src, dst)
+			n++
+			w.Drop(dst)
+			w.Drop(src)
+		}
+	}
+	for _, ty := range []string{"int16", "float32", "uint64"} {
+		w := s.Next()
+		w.Reset()
+		for _, sh := range [][4]int{{2, 6, 3, 4}, {4, 1, 1, 4}, {1, 6, 3, 2}} {
+			d := w.filledRoot(ty, sh[0], sh[1]+sh[3]*sh[2]/sh[0]+1)
+			w.Slice(d, 0, sh[1])
+			dw := len(w.Views) - 1
+			src := w.filledRoot(ty, sh[2], sh[3])
+			w.Append(dw, src)
+			n++
+			w.Drop(src)
+			w.Drop(dw)
+			w.Drop(d)
 		}
 	}
 	for _, ty := range typesFor(thorough) {
@@ -568,6 +599,73 @@ func driveRaggedAppend(s *shardSet, rng *rand.Rand, thorough bool) {
 						w.Slice(0, 0, w.Views[0].Capacity())
 						w.AppendSample(0, w.NextStamp())
 					}
+				}
+			}
+		}
+	}
+}
+
+// driveConvertSameArray: source and destination are DISJOINT windows of one allocation (same element type, so only
+// the three same-family functions apply), destination before and after the source, adjacent and with a gap.
+func driveConvertSameArray(s *shardSet, rng *rand.Rand, thorough bool) {
+	for _, fn := range []string{"FloatAsFloat", "SignedAsSigned", "UnsignedAsUnsigned"} {
+		for _, f := range ConvFns {
+			if f.Name != fn {
+				continue
+			}
+			for ti, ty := range f.Src {
+				if !contains(f.Dst, ty) || (!thorough && ti%2 == 1) {
+					continue
+				}
+				for ch := 1; ch <= 2; ch++ {
+					for _, sh := range [][4]int{{0, 4, 4, 8}, {4, 8, 0, 4}, {0, 3, 5, 8}, {5, 8, 1, 3}, {0, 2, 2, 8}, {6, 8, 0, 6}} {
+						w := s.Next()
+						w.Reset()
+						root := w.spreadSource(ty, ch, 8)
+						w.Slice(root, sh[0], sh[1])
+						sv := len(w.Views) - 1
+						w.Slice(root, sh[2], sh[3])
+						w.Convert(fn, sv, len(w.Views)-1)
+					}
+				}
+			}
+		}
+	}
+}
+
+// driveConvertReusedDst: ONE destination buffer receives, one after the other, conversions from sources of every
+// admissible type that all hold the same few values (the first sample of each source equals the last sample of the
+// one before): a result depends on the source sample and the two formats, never on what the destination was used for.
+func driveConvertReusedDst(s *shardSet, rng *rand.Rand, thorough bool) {
+	vals := []int64{127, 127, 1, 0, 100, 127}
+	for _, dty := range BuiltinTypes {
+		if !thorough && rng.Intn(2) == 0 {
+			continue
+		}
+		w := s.Next()
+		w.Reset()
+		w.Alloc(dty, 1, len(vals), len(vals))
+		for round := 0; round < 2; round++ {
+			for _, f := range ConvFns {
+				if !contains(f.Dst, dty) {
+					continue
+				}
+				for _, sty := range f.Src {
+					if isFloatTy(sty) {
+						continue
+					}
+					w.Alloc(sty, 1, len(vals), len(vals))
+					sv := len(w.Views) - 1
+					in := make([]int64, len(vals))
+					for i, v := range vals { // the same amplitude in every integer format: v scaled to the format's depth
+						in[i] = v << uint(kindBits(sty)-8)
+						if kindClass(KindOf(sty)) == "Unsigned" {
+							in[i] = (v + 128) << uint(kindBits(sty)-8)
+						}
+					}
+					w.Write(sv, KindOf(sty), in)
+					w.Convert(f.Name, sv, 0)
+					w.Drop(sv)
 				}
 			}
 		}
